@@ -228,7 +228,7 @@ impl Check for C06 {
 
     fn gen(&self, seed: u64, spec_seed: u64, tier: Tier) -> ReadCase {
         let mut rng = Rng::new(seed);
-        let spec = cases::spec_for(spec_seed, &SpecOpts { global_masters: true, ..Default::default() });
+        let spec = cases::spec_for(spec_seed, &SpecOpts { global_masters: true, shapes: true, ..Default::default() });
         let mut doc_o = cases::doc_opts_for(tier, &mut rng);
         doc_o.unknown_pct = *rng.pick(&[0u64, 30, 60, 90]);
         doc_o.pay.max_len = doc_o.pay.max_len.min(300);
